@@ -296,6 +296,8 @@ def shrink(mod, ctx, world, cls, budget=400):
     attempts = 0
     cur = copy.deepcopy(world)
     progress = True
+    if "hang:watchdog" in cls:
+        budget = 0          # every attempt would wait for the watchdog again: reported unshrunk
     while progress and attempts < budget:
         progress = False
         lists = mod.shrink_lists(cur) if hasattr(mod, "shrink_lists") else []
